@@ -60,21 +60,32 @@ type Lemma struct {
 }
 
 type FuncContract struct {
-	Key        string // function key relative to the package, e.g. "(*Scanner).Advance", "NewPartition", "Shorten$1"
-	Pkg        string // package path
-	File       string
-	Line       int
-	Clauses    []*Clause
-	Pure       []string // names of parameters that are pure function values
-	Trusted    bool     // contract is assumed, body not verified
-	Inline     bool
-	NoFrame    bool // "modifies *": no frame obligation
-	Lemmas     []*Lemma
-	HasMods    bool
-	Uses       []string
-	Terminates bool
-	Callbacks []string
+	Key          string // function key relative to the package, e.g. "(*Scanner).Advance", "NewPartition", "Shorten$1"
+	Pkg          string // package path
+	File         string
+	Line         int
+	Clauses      []*Clause
+	Pure         []string // names of parameters that are pure function values
+	Trusted      bool     // contract is assumed, body not verified
+	Inline       bool
+	NoFrame      bool // "modifies *": no frame obligation
+	Lemmas       []*Lemma
+	HasMods      bool
+	Uses         []string
+	Terminates   bool
+	Callbacks    []string
 	CallbackRank map[string]int // ranks of traced callbacks (ghost event trace)
+	Ghosts       []*GhostVar
+}
+
+// GhostVar is a specification-only variable: "ghost name sort = init"; it is updated at loop heads by
+// "loop N ghost name := expr" (evaluated each time control reaches the head, after the invariant).
+type GhostVar struct {
+	Name       string
+	Sort       string // int | real | bool | []int | []real  (arrays are total maps from int)
+	Init       Expr
+	Updates    map[int]Expr
+	EndUpdates map[int]Expr
 }
 
 type ContractFile struct {
@@ -91,7 +102,7 @@ type ContractFile struct {
 var clauseKeywords = map[string]bool{
 	"pred": true, "def": true, "spec": true, "axiom": true, "func": true, "lemma": true,
 	"requires": true, "ensures": true, "modifies": true, "decreases": true, "loop": true,
-	"pure": true, "inline": true, "trusted": true, "terminates": true, "callback": true,
+	"pure": true, "inline": true, "trusted": true, "terminates": true, "callback": true, "ghost": true,
 }
 
 func ParseContractFile(path, pkg string) (*ContractFile, error) {
@@ -203,6 +214,18 @@ func ParseContractFile(path, pkg string) (*ContractFile, error) {
 						cur.CallbackRank[name] = n
 					}
 				}
+			case "ghost":
+				// ghost name sort = init
+				lhs, rhs, ok := strings.Cut(it.text, "=")
+				f := strings.Fields(lhs)
+				if !ok || len(f) != 2 {
+					return nil, fail(fmt.Errorf("want: ghost name sort = init"))
+				}
+				e, err := ParseExpr(rhs)
+				if err != nil {
+					return nil, fail(err)
+				}
+				cur.Ghosts = append(cur.Ghosts, &GhostVar{Name: f[0], Sort: f[1], Init: e, Updates: map[int]Expr{}, EndUpdates: map[int]Expr{}})
 			case "inline":
 				cur.Inline = true
 			case "trusted":
@@ -223,6 +246,34 @@ func ParseContractFile(path, pkg string) (*ContractFile, error) {
 					}
 					c.Loop = n
 					c.Kind = f[1]
+					if c.Kind == "ghost" || c.Kind == "ghost-end" {
+						// loop N ghost name := expr      (at the loop head, after the invariant)
+						// loop N ghost-end name := expr  (at the end of every iteration, before the invariant is re-checked)
+						rest := strings.TrimSpace(text[strings.Index(text, c.Kind)+len(c.Kind):])
+						name, ex, ok := strings.Cut(rest, ":=")
+						if !ok {
+							return nil, fail(fmt.Errorf("want: loop N ghost name := expr"))
+						}
+						e, err := ParseExpr(ex)
+						if err != nil {
+							return nil, fail(err)
+						}
+						found := false
+						for _, g := range cur.Ghosts {
+							if g.Name == strings.TrimSpace(name) {
+								if c.Kind == "ghost-end" {
+									g.EndUpdates[n] = e
+								} else {
+									g.Updates[n] = e
+								}
+								found = true
+							}
+						}
+						if !found {
+							return nil, fail(fmt.Errorf("undeclared ghost variable %s", name))
+						}
+						continue
+					}
 					if c.Kind != "invariant" && c.Kind != "decreases" {
 						return nil, fail(fmt.Errorf("want invariant or decreases"))
 					}
